@@ -10,6 +10,7 @@ import (
 	"fmt"
 	"sync"
 	"testing"
+	"time"
 
 	"cuelabs.dev/go/oci/ociregistry"
 	"cuelabs.dev/go/oci/ociregistry/ocimem"
@@ -24,9 +25,95 @@ type SharedScript struct {
 	Chunk   int  `json:"chunk"`
 	Rounds  int  `json:"rounds"`
 	Seq     bool `json:"sequential"`
+	// CancelRace: instead of concurrent writes, one goroutine commits while another cancels; member i's
+	// Commit takes CommitDelayUs[i] longer, the Cancel starts CancelAfterUs after the Commit
+	CancelRace    bool   `json:"cancel_race,omitempty"`
+	CommitDelayUs [2]int `json:"commit_delay_us,omitempty"`
+	CancelAfterUs int    `json:"cancel_after_us,omitempty"`
+}
+
+// slowCommits is a member whose chunked writers take a little longer over Commit.
+type slowCommits struct {
+	ociregistry.Interface
+	d time.Duration
+}
+
+func (m slowCommits) PushBlobChunked(ctx context.Context, repo string, chunkSize int) (ociregistry.BlobWriter, error) {
+	w, err := m.Interface.PushBlobChunked(ctx, repo, chunkSize)
+	if err != nil {
+		return nil, err
+	}
+	return slowCommitWriter{w, m.d}, nil
+}
+
+type slowCommitWriter struct {
+	ociregistry.BlobWriter
+	d time.Duration
+}
+
+func (w slowCommitWriter) Commit(dg ociregistry.Digest) (ociregistry.Descriptor, error) {
+	time.Sleep(w.d)
+	return w.BlobWriter.Commit(dg)
+}
+
+func runCancelRace(s SharedScript, v *vt.V) {
+	ctx := context.Background()
+	pol := ociunify.ReadConcurrent
+	if s.Seq {
+		pol = ociunify.ReadSequential
+	}
+	content := bytes.Repeat([]byte{'Z'}, s.Chunk)
+	dg := ociregistry.Digest(digest.FromBytes(content))
+	outcomes := map[string]int{}
+	for round := 0; round < s.Rounds; round++ {
+		m0, m1 := ocimem.New(), ocimem.New()
+		u := ociunify.New(
+			slowCommits{m0, time.Duration(s.CommitDelayUs[0]) * time.Microsecond},
+			slowCommits{m1, time.Duration(s.CommitDelayUs[1]) * time.Microsecond},
+			&ociunify.Options{ReadPolicy: pol})
+		w, err := u.PushBlobChunked(ctx, "foo", 0)
+		if err != nil {
+			v.Failf("harness", "%v", err)
+			return
+		}
+		if _, err := w.Write(content); err != nil {
+			v.Failf("harness", "%v", err)
+			return
+		}
+		var wg sync.WaitGroup
+		var cerr, xerr error
+		wg.Add(2)
+		go func() {
+			defer wg.Done()
+			_, cerr = w.Commit(dg)
+		}()
+		go func() {
+			defer wg.Done()
+			time.Sleep(time.Duration(s.CancelAfterUs) * time.Microsecond)
+			xerr = w.Cancel()
+		}()
+		wg.Wait()
+		w.Close()
+		_, e0 := m0.ResolveBlob(ctx, "foo", dg)
+		_, e1 := m1.ResolveBlob(ctx, "foo", dg)
+		if (e0 == nil) != (e1 == nil) {
+			v.Failf("members-diverged-cancel-commit", "round %d: one goroutine committed a unified upload (member commits taking %v us) while another cancelled it %d us later: Commit answered %v, Cancel answered %v, and member 0 %s the blob while member 1 %s it", round, s.CommitDelayUs, s.CancelAfterUs, cerr, xerr, has01(e0), has01(e1))
+			return
+		}
+		if cerr == nil && e0 != nil {
+			v.Failf("commit-success-without-blob", "round %d: Commit of a unified upload answered success while a Cancel ran beside it, and neither member holds the blob", round)
+			return
+		}
+		outcomes[fmt.Sprintf("commit-ok=%v", cerr == nil)]++
+	}
+	v.NonTrivial(fmt.Sprintf("%+v %v", s, outcomes))
 }
 
 func runShared(s SharedScript, v *vt.V) {
+	if s.CancelRace {
+		runCancelRace(s, v)
+		return
+	}
 	ctx := context.Background()
 	pol := ociunify.ReadConcurrent
 	if s.Seq {
@@ -113,7 +200,7 @@ func permute(xs [][]byte, f func([][]byte)) {
 var propShared = &vt.Prop[SharedScript]{
 	ID:   "C15",
 	Name: "SharedUnifiedWriter",
-	Rule: "2-3 goroutines write one distinct chunk (1 byte .. 64 KiB) each, at the same instant, through ONE writer obtained from the unifier over two empty ocimem members, 200-2000 rounds per case, both read policies; oracle = every Write succeeds, Size() equals the bytes accepted, and after a Commit attempt the two members agree, for every order of the chunks, on whether they hold that content; schedules are the Go scheduler's",
+	Rule: "2-3 goroutines write one distinct chunk (1 byte .. 64 KiB) each, at the same instant, through ONE writer obtained from the unifier over two empty ocimem members, 200-2000 rounds per case, both read policies; oracle = every Write succeeds, Size() equals the bytes accepted, and after a Commit attempt the two members agree, for every order of the chunks, on whether they hold that content; schedules are the Go scheduler's; plus Commit against Cancel on one writer, the members' commits taking 0-1000 us, the Cancel starting 0-500 us later, 20-200 rounds per case: the members agree on whether they hold the blob, and a successful Commit means they do",
 	Run:  runShared,
 }
 
@@ -133,6 +220,19 @@ func TestPropShared(t *testing.T) {
 						continue
 					}
 					if !yield(SharedScript{Writers: writers, Chunk: chunk, Rounds: rounds, Seq: seq}) {
+						return
+					}
+				}
+			}
+		}
+		for _, delays := range [][2]int{{0, 0}, {300, 0}, {0, 300}, {1000, 100}} {
+			for _, after := range []int{0, 50, 150, 500} {
+				for _, seq := range []bool{false, true} {
+					k++
+					if k%shards != shard {
+						continue
+					}
+					if !yield(SharedScript{Chunk: 100, Rounds: rounds / 10, Seq: seq, CancelRace: true, CommitDelayUs: delays, CancelAfterUs: after}) {
 						return
 					}
 				}
